@@ -77,6 +77,7 @@ def plan(tier, seed):
     shards += [("map", tier, ci) for ci in range(len(CELLS))]
     shards += [("grainsinos", tier, ci) for ci in range(len(CELLS))]
     shards += [("combine", tier, ci) for ci in range(len(CELLS))]
+    shards += [("threads", tier, ci) for ci in ((1, 4) if tier == "quick" else range(len(CELLS)))]
     k = seed % len(shards)
     return shards[k:] + shards[:k]
 
@@ -512,8 +513,52 @@ def _run_combine(desc):
     return sh
 
 
+def _run_threads(desc):
+    """two python threads compute the strain of two DIFFERENT grains at the same time (grain.eps_grain_matrix / eps_sample_matrix, for
+    m = 0, 0.5, 1): every schedule with one preemption at a bytecode of the finite_strain module is executed (engine E7); each thread
+    gets the tensors it gets when it runs alone"""
+    _, tier, ci = desc
+    from ImageD11 import grain as gm, finite_strain as fs
+    from vt import pysched
+    sh = Shard()
+    cell = CELLS[ci]
+    B0 = O.cell_to_B(cell)
+    St = stretches(tier)
+    R = rots(seed_of())
+    ubis = [np.linalg.inv(np.dot(np.dot(R[2 + k], St[7 + k]), B0)) for k in range(2)]
+    modfile = fs.__file__
+    for m in (0, 0.5, 1):
+        alone = [(gm.grain(u.copy()).eps_grain_matrix(cell, m), gm.grain(u.copy()).eps_sample_matrix(cell, m)) for u in ubis]
+
+        def make():
+            return [lambda: (gm.grain(ubis[0].copy()).eps_grain_matrix(cell, m), gm.grain(ubis[0].copy()).eps_sample_matrix(cell, m)),
+                    lambda: (gm.grain(ubis[1].copy()).eps_grain_matrix(cell, m), gm.grain(ubis[1].copy()).eps_sample_matrix(cell, m))]
+        nexec = 0
+        for sw, res, err in pysched.explore(make, lambda fr: fr.f_code.co_filename == modfile, bound=1, max_exec=20000, opcodes=True):
+            nexec += 1
+            case = {"kind": "threads", "cell": cell, "m": m, "switch_at_points": list(sw), "seed": seed_of()}
+            for t in range(2):
+                if err[t] is not None:
+                    sh.violation("finite-strain:concurrent-evaluation-raises", dict(case, thread=t), {"error": repr(err[t])[:200]})
+                    break
+                if not (np.array_equal(res[t][0], alone[t][0]) and np.array_equal(res[t][1], alone[t][1])):
+                    sh.violation("finite-strain:differs-when-another-grain-is-evaluated-at-the-same-time", dict(case, thread=t),
+                                 {"max_diff": float(max(np.abs(res[t][0] - alone[t][0]).max(), np.abs(res[t][1] - alone[t][1]).max()))})
+                    break
+            sh.states += 1
+            sh.traces_validated += 1
+            if sh.violations:
+                break
+        sh.count("thread_schedules_executed", nexec)
+        sh.evaluations += 1
+        sh.nontrivial += 1
+    sh.outcomes.add(("threads", ci))
+    sh.sample({"kind": "threads", "cell": cell, "schedules": nexec}, limit=1)
+    return sh
+
+
 def run_shard(desc):
-    return {"grain": _run_grain, "map": _run_map, "grainsinos": _run_grainsinos, "combine": _run_combine}[desc[0]](desc)
+    return {"grain": _run_grain, "map": _run_map, "grainsinos": _run_grainsinos, "combine": _run_combine, "threads": _run_threads}[desc[0]](desc)
 
 
 def replay(case):
@@ -523,6 +568,9 @@ def replay(case):
         r = _run_grain(("grain", "thorough", ci, case["ref_orientation"]))
         v = [x for x in r.violations if x["case"].get("stretch") == case["stretch"] and x["case"].get("rotation") == case["rotation"]
              and x["case"].get("m") == case["m"]]
+    elif case["kind"] == "threads":
+        r = _run_threads(("threads", "quick", CELLS.index(case["cell"])))
+        v = [x for x in r.violations if x["case"]["m"] == case["m"]]
     elif case["kind"] == "combine":
         r = _run_combine(("combine", "thorough", CELLS.index(case["cell"])))
         v = [x for x in r.violations if x["case"]["owners"] == case["owners"] and x["case"]["order_of_the_maps"] == case["order_of_the_maps"]]
